@@ -18,7 +18,7 @@ Key(l, d, salt) == (l * 7919 + d * 104729 + Seed * 15485 + salt * 611953) % 1000
 PickDet(set, key) == LET q == SetToSeq(set) IN q[(key % Len(q)) + 1]
 
 CatsOf(p) == CASE p = "C02" -> {1} [] p = "C10" -> {1, 2, 3} [] p = "C06" -> {4} [] p = "C05" -> {5}
-               [] p = "C08" -> {6, 7} [] p = "C14" -> {8, 9} [] p = "C13" -> {10, 11} [] p = "C12" -> {12, 13}
+               [] p \in {"C08", "C09"} -> {6, 7} [] p = "C14" -> {8, 9} [] p = "C13" -> {10, 11} [] p = "C12" -> {12, 13}
                [] OTHER -> 1..NCat         \* C07 and anything else: all categories
 Cats == 1..NCat
 
@@ -29,6 +29,8 @@ StrStarts == {Var("strs"), Var("uni"), Var("uni1"), Var("digits"), Fld(Fld(Pat, 
 StartsFor(p) == CASE p = "C08" -> NumStarts [] p = "C14" -> StrStarts
                   [] p = "C13" -> NumStarts \cup StrStarts \cup BoolLits \cup DateLits \cup DtLits \cup TimeLits
                                   \cup {Fld(Pat, "birthDate"), Fld(Pat, "active"), Var("mixed"), Fld(Fld(Pat, "meta"), "lastUpdated")}
+                  [] p = "C09" -> DateLits \cup DtLits \cup TimeLits \cup {Fld(Pat, "birthDate"), Fld(Fld(Pat, "meta"), "lastUpdated"),
+                                                                      Fld(Fld(Fld(Pat, "birthDate"), "extension"), "value"), Fld(Fld(Fld(Pat, "address"), "period"), "start")}
                   [] p = "C05" -> NumStarts \cup StrStarts \cup DateLits \cup DtLits \cup TimeLits \cup {Fld(Pat, "birthDate"), Fld(Fld(Pat, "meta"), "lastUpdated")}
                   [] OTHER -> Starts
 StartSeq(l) == SetToSeq(IF Key(l, 0, 5) % 2 = 0 THEN StartsFor(Prop) ELSE Starts)
